@@ -307,7 +307,7 @@ def main(tier: str, seed: int) -> int:
         fam = j["family"].split("/")[0].split("~")[0]
         return [config(compose.OWNER[fam], c0["inp"], [], NOORC), config(DEFAULT, c0["inp"], [], NOORC)]
 
-    keep = slice_keep(tier)
+    keep = slice_keep("quick")
     imm_fams = ["C12", "C13", "C15"] if quick else ["C08", "C09", "C10", "C11", "C12", "C13", "C14", "C15", "C16"]
     n_fixed = len(imm_jobs)
     imm_jobs += list(compose.remap(compose.family_jobs(imm_fams, tier),
